@@ -169,7 +169,7 @@ def _conditional(which):
         if which == "Conditional":
             want = S.mean(S.filtered(inp.y, cond))
         elif which == "XConditional":
-            want = S.fn("median", S.filtered(inp.x, cond), (None,))
+            want = S.fn("median", S.filtered(inp.x, cond), ())
         else:
             want = S.to_num(n_in)
         goals.append(("statistic-over-exactly-the-values-in-the-event(missing-in-no-event)", S.implies(S.not_(S.same(n_in, 0)), S.same(out, want))))
